@@ -1137,17 +1137,22 @@ func (fr *Frame) evalCall(x *ECall, env *evalEnv) (Value, error) {
 		return intV(env.readAt("G.calls", sArr(sRef, sBV(64)), ref)), nil
 	case "retof":
 		// retof(f, k): the k-th result of the latest call of the package function f made by this function
-		id, ok := x.Args[0].(*EIdent)
-		if !ok {
+		var fname string
+		switch a := x.Args[0].(type) {
+		case *EIdent:
+			fname = a.Name
+		case *EStr:
+			fname = a.S // methods: retof("(time.Time).Year", 0)
+		default:
 			return nil, fmt.Errorf("retof: first argument must name a function")
 		}
 		ki, ok := x.Args[1].(*EInt)
 		if !ok {
 			return nil, fmt.Errorf("retof: result index must be a literal")
 		}
-		lv, ok := fr.lastRet["fn:"+id.Name]
+		lv, ok := fr.lastRet["fn:"+fname]
 		if !ok {
-			return nil, fmt.Errorf("retof: no call of %s has been executed yet", id.Name)
+			return nil, fmt.Errorf("retof: no call of %s has been executed yet", fname)
 		}
 		if tv, ok := lv.(*TupleV); ok {
 			if int(ki.V) >= len(tv.E) {
